@@ -202,6 +202,29 @@ class MemFamily(Family):
             npat = 0
             added = []
             uni = uni_open if rng.random() < 0.25 else uni_closed
+            if rng.random() < 0.06:
+                # aimed history (seeded change C12-m14): an occurrence removed individually, then added
+                # back as a one-off event carrying the series id, then the series removed: the one-off
+                # event must survive the series and be removable afterwards
+                k = rng.choice([1, 2])
+                anchored = rng.random() < 0.5
+                tod = rng.choice([0, 9 * H])
+                phase = (BASE + tod) if anchored else tod
+                dur, tag = rng.choice([H, 2 * H]), rng.choice([4, 5, 6])
+                s = (phase if phase > DAY else BASE + phase) + rng.choice([0, 1, 2]) * k * DAY
+                s2 = (phase if phase > DAY else BASE + phase) + rng.choice([0, 1, 2]) * k * DAY
+                win = [BASE - DAY, BASE + 6 * DAY]
+                ops = [["addpat", k, phase, dur, tag, anchored],
+                       ["remove", s, s + dur, tag, 1],
+                       ["slice", win[0], win[1], False],
+                       ["add", s, s + dur, tag, 1],
+                       ["slice", win[0], win[1], rng.random() < 0.3],
+                       ["rseries", s2, s2 + dur, tag, 1],
+                       ["slice", win[0], win[1], False],
+                       ["remove", s, s + dur, tag, 1],
+                       ["slice", win[0], win[1], False]]
+                yield dict(ops=ops)
+                continue
             for _ in range(rng.choice([2, 4, 6, 8, 10, 12] if tier == "quick" else [6, 10, 14, 16])):
                 r = rng.random()
                 if r < 0.25:
